@@ -188,6 +188,23 @@ SecKbd ==
                s \in {"same", "other"}, y \in {"normal", "changereq"}} :
         Big \/ KbdQuick(c)}
 
+\* -- "mix": keyboard-interactive given up / failed while other methods follow and the method
+\*    is listed again after their failures (is it offered a second time?)
+SecMix ==
+    {[Cfg0 EXCEPT !.sec = "mix", !.prefDefault = (p = <<"*">>),
+                  !.pref = IF p = <<"*">> THEN <<>> ELSE p,
+                  !.local = k, !.pw = w, !.app = a, !.srv.list0 = l, !.srv.kbdRounds = r,
+                  !.srv.kbdSecret = s] :
+        p \in IF Big THEN {<<"*">>, <<>>, <<KBD, PK, PW>>} ELSE {<<>>, <<KBD, PK, PW>>},
+        k \in {<<Item("l1", "ed", "-", FALSE, "yes")>>,
+               <<Item("l1", "ed", "-", FALSE, "yes"), Item("l2", "ed", "-", TRUE, "yes")>>},
+        w \in IF Big THEN PW3 ELSE {"right", "wrong"},
+        a \in IF Big THEN {"none", "wrong"} ELSE {"none"},
+        l \in IF Big THEN {<<KBD, PK>>, <<KBD, PK, PW>>, <<PW, KBD, PK>>}
+              ELSE {<<KBD, PK>>, <<KBD, PK, PW>>},
+        r \in {<<"otp">>, <<"pw">>, <<"two">>, <<"pw", "otp">>},
+        s \in IF Big THEN {"same", "other"} ELSE {"same"}}
+
 \* -- "dyn": what only a scripted server does: changing lists, partial success, anomalies
 DynLists == {<<PK, PW>>, <<PW, PK>>, <<PK>>, <<PW>>, <<PK, KBD, PW>>}
 DynKeys == {<<>>, <<Item("l1", "ed", "-", FALSE, "yes")>>, <<Item("l1", "ed", "-", TRUE, "yes")>>,
@@ -229,6 +246,7 @@ Configs ==
     (IF "keys" \in Sections THEN SecKeys ELSE {}) \cup
     (IF "rsa" \in Sections THEN SecRsa ELSE {}) \cup
     (IF "kbd" \in Sections THEN SecKbd ELSE {}) \cup
+    (IF "mix" \in Sections THEN SecMix ELSE {}) \cup
     (IF "change" \in Sections THEN SecDynChange ELSE {}) \cup
     (IF "partial" \in Sections THEN SecDynPartial ELSE {}) \cup
     (IF "odd" \in Sections THEN SecDynOdd ELSE {})
